@@ -5,7 +5,7 @@ set -e
 cd "$(dirname "$0")"
 export GOFLAGS=-mod=mod GOPROXY=off GOSUMDB=off GOTOOLCHAIN=local CGO_ENABLED=0
 mkdir -p .build evidence
-(cd harness && go vet -tags verif ./cmd/vh >/dev/null 2>&1 || true; go build -tags verif -o ../.build/vh-all ./cmd/vh)
+true
 if [ -x tools/regen_all.sh ]; then tools/regen_all.sh; fi
 (cd lean && lake build Mtv Driver && lake build $(for i in 01 02 03 04 05 06 07 08 09 10 11 12 13 14 15 16 17 18 19 20; do echo drv-c$i; done))
 echo "setup ok"
